@@ -137,6 +137,7 @@ type FieldAccess struct {
 	Instr ssa.Instruction
 	Write bool
 	Kind  string // store, load, mapupdate, delete, append-store, range, len, lookup, addr
+	Base  ssa.Value // the struct (pointer) whose field is accessed
 }
 
 func namedOf(t types.Type) *types.Named {
@@ -166,6 +167,19 @@ func (w *World) FieldAccesses(rel, typeName, field string) []FieldAccess {
 	}
 	for _, fn := range w.AllFuncs {
 		EachInstr(fn, func(in ssa.Instruction) {
+			n0 := len(out)
+			defer func() {
+				var base ssa.Value
+				switch x := in.(type) {
+				case *ssa.FieldAddr:
+					base = x.X
+				case *ssa.Field:
+					base = x.X
+				}
+				for i := n0; i < len(out); i++ {
+					out[i].Base = base
+				}
+			}()
 			switch x := in.(type) {
 			case *ssa.FieldAddr:
 				if !match(x.X.Type(), x.Field) {
@@ -175,20 +189,20 @@ func (w *World) FieldAccesses(rel, typeName, field string) []FieldAccess {
 					switch u := ref.(type) {
 					case *ssa.Store:
 						if u.Addr == x {
-							out = append(out, FieldAccess{fn, u, true, "store"})
+							out = append(out, FieldAccess{Fn: fn, Instr: u, Write: true, Kind: "store"})
 						} else {
-							out = append(out, FieldAccess{fn, u, false, "addr"})
+							out = append(out, FieldAccess{Fn: fn, Instr: u, Write: false, Kind: "addr"})
 						}
 					case *ssa.UnOp:
 						out = append(out, classifyLoad(fn, u)...)
 					default:
 						// address passed elsewhere (e.g. atomic.AddUint64(&x.f, 1), mutex ops)
-						out = append(out, FieldAccess{fn, ref, false, "addr"})
+						out = append(out, FieldAccess{Fn: fn, Instr: ref, Write: false, Kind: "addr"})
 					}
 				}
 			case *ssa.Field:
 				if match(x.X.Type(), x.Field) {
-					out = append(out, FieldAccess{fn, x, false, "load"})
+					out = append(out, FieldAccess{Fn: fn, Instr: x, Write: false, Kind: "load"})
 				}
 			}
 		})
@@ -200,34 +214,34 @@ func classifyLoad(fn *ssa.Function, ld *ssa.UnOp) []FieldAccess {
 	var out []FieldAccess
 	refs := ld.Referrers()
 	if refs == nil || len(*refs) == 0 {
-		return []FieldAccess{{fn, ld, false, "load"}}
+		return []FieldAccess{{Fn: fn, Instr: ld, Kind: "load"}}
 	}
 	for _, ref := range *refs {
 		switch u := ref.(type) {
 		case *ssa.MapUpdate:
 			if u.Map == ld {
-				out = append(out, FieldAccess{fn, u, true, "mapupdate"})
+				out = append(out, FieldAccess{Fn: fn, Instr: u, Write: true, Kind: "mapupdate"})
 				continue
 			}
 		case *ssa.Call:
 			if b, ok := u.Call.Value.(*ssa.Builtin); ok {
 				switch b.Name() {
 				case "delete":
-					out = append(out, FieldAccess{fn, u, true, "delete"})
+					out = append(out, FieldAccess{Fn: fn, Instr: u, Write: true, Kind: "delete"})
 					continue
 				case "len":
-					out = append(out, FieldAccess{fn, u, false, "len"})
+					out = append(out, FieldAccess{Fn: fn, Instr: u, Write: false, Kind: "len"})
 					continue
 				}
 			}
 		case *ssa.Lookup:
-			out = append(out, FieldAccess{fn, u, false, "lookup"})
+			out = append(out, FieldAccess{Fn: fn, Instr: u, Write: false, Kind: "lookup"})
 			continue
 		case *ssa.Range:
-			out = append(out, FieldAccess{fn, u, false, "range"})
+			out = append(out, FieldAccess{Fn: fn, Instr: u, Write: false, Kind: "range"})
 			continue
 		}
-		out = append(out, FieldAccess{fn, ld, false, "load"})
+		out = append(out, FieldAccess{Fn: fn, Instr: ld, Write: false, Kind: "load"})
 	}
 	return out
 }
